@@ -339,6 +339,9 @@ def _install_virtual_env():
     threading.Thread.start, threading.Thread.join = start, join
 
 
+_ABSENT = object()
+
+
 class NativeCtx:
     backend = 'native'
 
@@ -556,7 +559,7 @@ class NativeCtx:
         except StopLoop as e:
             self.ns['raised'] = 'StopLoop'
             self.ns['exc'] = e
-        except Exception as e:
+        except (Exception, KeyboardInterrupt) as e:        # KeyboardInterrupt only ever comes from a c.raiser stub here
             self.ns['raised'] = exc_name(e)
             self.ns['exc'] = e
             self.ns['exc_tb'] = traceback.format_exc()
@@ -646,21 +649,24 @@ class NativeCtx:
             return self._tlast
         return self._f(v)
 
-    def patch(self, ref, value):
+    def patch(self, ref, value, create=False):
         """(added for C20) replace the module / class attribute `ref` ('pkg.mod:Name' or 'pkg.mod:Class.attr') by
         `value` for this run (hardware constructors, module-level driver lists ...); undone by unpatch()"""
         modname, _, qual = ref.partition(':')
         parts = qual.split('.')
         parent = resolve(modname + ':' + '.'.join(parts[:-1]))
-        if parts[-1] not in vars(parent):
+        if parts[-1] not in vars(parent) and not create:
             raise AttributeError('%s: nothing to patch' % ref)
-        self._patched.append((parent, parts[-1], vars(parent)[parts[-1]]))
+        self._patched.append((parent, parts[-1], vars(parent).get(parts[-1], _ABSENT)))
         setattr(parent, parts[-1], value)
         return value
 
     def unpatch(self):
         for mod, nm, old in reversed(self._patched):
-            setattr(mod, nm, old)
+            if old is _ABSENT:
+                delattr(mod, nm)
+            else:
+                setattr(mod, nm, old)
 
     def concretize(self, expr, limit=64):
         v = spec_eval(expr, self.ns) if isinstance(expr, str) else expr
